@@ -58,6 +58,7 @@ Definition std_rc (rs re cs ce : option Z) (rows cols : Z) (as_idx out_idx : boo
   let cs1 := match to_one_based as_idx cs with Some v => v | None => 1 end in
   let ce1 := match to_one_based as_idx ce with Some v => v | None => cols + 1 end in
   if (cs1 =? 0) || (rs1 =? 0) then Err "ValueError"
+  else if (ce1 =? 0) || (re1 =? 0) then Err "ValueError"
   else if rows <? rs1 then Err "ValueError"
   else let rs2 := if rs1 <? 0 then rows + rs1 + 1 else rs1 in
   if rs2 <? 1 then Err "ValueError"
@@ -550,3 +551,58 @@ Definition run_stored_hist (allow_missing : bool) (st : stored) ss se rs re cs c
   | VL l => VL (l ++ [VB true])
   | v => v
   end.
+
+(* ====================================================================== *)
+(* 10. segmentation pyramid from several source images and / or several     *)
+(*     pixel arrays (seg/pyramid.py, downsample_factors=None)               *)
+(* ====================================================================== *)
+(* one source level: TotalPixelMatrixRows, TotalPixelMatrixColumns, PixelSpacing,
+   total pixel matrix origin *)
+Definition src_level := (Z * Z * Q * Q * v3)%type.
+Definition lvl_size (l : src_level) : Z * Z := match l with (R, C, _, _, _) => (R, C) end.
+
+(* "strictly ordered in decreasing resolution": for the source images rows AND
+   columns are compared; for the pixel arrays the code compares the two shape
+   TUPLES (r0 = c0 = shape[:2]), i.e. lexicographically *)
+Fixpoint decreasing_src (l : list (Z * Z)) : bool :=
+  match l with
+  | a :: ((b :: _) as t) => negb ((fst a <=? fst b)%Z || (snd a <=? snd b)%Z) && decreasing_src t
+  | _ => true
+  end.
+Definition lex_le (a b : Z * Z) : bool :=
+  (fst a <? fst b)%Z || ((fst a =? fst b)%Z && (snd a <=? snd b)%Z).
+Fixpoint decreasing_pix (l : list (Z * Z)) : bool :=
+  match l with
+  | a :: ((b :: _) as t) => negb (lex_le a b) && decreasing_pix t
+  | _ => true
+  end.
+Definition size_eqb (a b : Z * Z) : bool := (fst a =? fst b)%Z && (snd a =? snd b)%Z.
+
+Definition pyramid_multi (srcs : list src_level) (pix : list (Z * Z)) : res (list src_level) :=
+  let ns := Z.of_nat (length srcs) in
+  let np := Z.of_nat (length pix) in
+  if (ns =? 0)%Z || (np =? 0)%Z then Err "ValueError"
+  else if (ns =? 1)%Z && (np =? 1)%Z then Err "TypeError"     (* downsample_factors required *)
+  else if (1 <? ns)%Z && (1 <? np)%Z && negb (ns =? np)%Z then Err "ValueError"
+  else if negb (decreasing_src (map lvl_size srcs)) then Err "ValueError"
+  else if negb (decreasing_pix pix) then Err "ValueError"
+  else if existsb (fun sp => negb (size_eqb (lvl_size (fst sp)) (snd sp))) (combine srcs pix)
+       then Err "ValueError"
+  else match srcs with
+       | [(R, C, spr, spc, org)] =>
+           (* one source, several pixel arrays: spacing scaled by the ratio of the array shapes *)
+           let '(R0, C0) := hd (R, C) pix in
+           Ok (map (fun p => (fst p, snd p, spr * (inject_Z R0 / inject_Z (fst p)),
+                              spc * (inject_Z C0 / inject_Z (snd p)), org)) pix)
+       | _ =>
+           (* several sources: level k is built from source k (mask resized to its
+              size when only one pixel array was given), pixel measures and origin
+              are the source's own *)
+           Ok srcs
+       end.
+
+Definition run_pyramid_multi (rowcos colcos : v3) (srcs : list src_level) (pix : list (Z * Z)) : val :=
+  vres (fun ls => VL (map (fun l => match l with (Rl, Cl, a, b, org) =>
+                                      VL [VZ Rl; VZ Cl; VQ a; VQ b;
+                                          vaff (tiled_geometry org rowcos colcos a b None)] end) ls))
+       (pyramid_multi srcs pix).
